@@ -128,8 +128,8 @@ class GraphAdapter(Adapter):
                 ns = [t for t in self.out(v, "next") if ref_cmp_ge(self.prop(t, "n"), mn) and (tag is None or ref_eq(self.prop(t, "s"), tag))]
                 yield ctx, iter(ns)
             elif self.sverif and edge_name == "req":
-                k = parameters.get("k")
-                yield ctx, iter([t for t in self.out(v, "next") if ref_cmp_ge(self.prop(t, "id"), k)])
+                k, lim = parameters.get("k"), parameters.get("lim")
+                yield ctx, iter([t for t in self.out(v, "next") if ref_cmp_ge(self.prop(t, "id"), k) and (lim is None or ref_cmp_ge(lim, self.prop(t, "id")))])
             else:
                 yield ctx, iter(self.out(v, edge_name))
 
